@@ -119,6 +119,8 @@ JudgeShift(c) ==
     Cl("C15.shift", fits /\ inA /\ c.ctor = "ok",
        c.out = "ok" /\ c.shifted = MapShape(c.wells, LAMBDA w : Shift(c.anchor, w))),
     Cl("C15.unshift", fits /\ inA /\ c.ctor = "ok" /\ c.out = "ok", c.out2 = "ok" /\ c.unshifted = c.wells),
+    \* the transforms are functions on well IDs: neither the argument nor an earlier result changes through a later call
+    Cl("C15.shiftstable", fits /\ inA /\ c.ctor = "ok" /\ c.out = "ok", c.shifted2 = c.shifted /\ c.argafter = c.wells),
     Cl("C15.shiftinside", fits /\ inA /\ c.ctor = "ok" /\ c.out = "ok", \A w \in AllWells(c.shifted) : InShape(c.B, w))
   }
 
@@ -128,6 +130,7 @@ JudgeRot(c) ==
     Cl("C15.rotccw", TRUE, c.out = "ok" /\ c.ccw = MapShape(c.wells, LAMBDA w : RotCCW(sh, w))),
     Cl("C15.rotinverse", c.out = "ok", c.cwccw = c.wells /\ c.ccwcw = c.wells),
     Cl("C15.rotfour", c.out = "ok", c.cw4 = c.wells),
+    Cl("C15.rotstable", c.out = "ok", c.cw2 = c.cw /\ c.argafter = c.wells),
     Cl("C15.rotinside", c.out = "ok", \A w \in AllWells(c.cw) \cup AllWells(c.ccw) : InShape(Swap(sh), w))
   }
 
@@ -138,7 +141,8 @@ JudgeRand(c) ==
     Cl("C15.randseed", c.out = "ok", c.tab1 = c.tab2),
     Cl("C15.randomize", c.out = "ok" /\ TableIsPermutation(sh, tab),
        c.rnd = MapShape(c.wells, LAMBDA w : Lookup(tab, w))),
-    Cl("C15.derandomize", c.out = "ok", c.back = c.wells)
+    Cl("C15.derandomize", c.out = "ok", c.back = c.wells),
+    Cl("C15.randstable", c.out = "ok", c.rnd2 = c.rnd /\ c.argafter = c.wells)
   }
 
 (***************************************************************************)
